@@ -74,6 +74,8 @@ type channel struct {
 	refs  atomic.Int32 // 2 by default (1 for user, 1 for connection)
 	freed atomic.Bool  // ensures public free is called once
 
+	connFreed atomic.Bool // ensures the connection reference is released once
+
 	state atomic.Pointer[channelState]
 }
 
@@ -302,6 +304,12 @@ func (ch *channel) receive(msg pmpx.Message) status.Status {
 // free is called by the connection to free the channel.
 func (ch *channel) free() {
 	verifpoint.Point("ch.free", verifpoint.Ptr(ch), int64(ch.refs.Load()), 0)
+	// The connection can free a channel from several places concurrently
+	// (sent/received close, closeChannels, failed createChannel).
+	if !ch.connFreed.CompareAndSwap(false, true) {
+		return
+	}
+
 	s := ch.state.Load()
 	if s == nil {
 		panic("free of freed channel")
